@@ -113,7 +113,7 @@ def build_node_error_event(
         parent_span_id=run_span_id,
         node_name=node.name,
         graph_name=graph.name,
-        error=str(exc_val) if exc_val else "",
+        error=str(exc_val) if exc_val is not None else "",
         error_type=f"{exc_type.__module__}.{exc_type.__qualname__}" if exc_type else "",
     )
 
@@ -194,7 +194,7 @@ def build_run_end_event(
         span_id=span_id,
         parent_span_id=parent_span_id,
         graph_name=graph.name,
-        status=RunStatus.FAILED if error else RunStatus.COMPLETED,
-        error=str(error) if error else None,
+        status=RunStatus.FAILED if error is not None else RunStatus.COMPLETED,
+        error=str(error) if error is not None else None,
         duration_ms=duration_ms,
     )
